@@ -64,3 +64,112 @@ package chained_bft
 //@   loop 1 invariant count: validCnt == distinctValid(cc, signs, justifyValidators, id, $i)
 //@   loop 1 invariant counted_vals: forall a string :: in(counted, a) ==> counted[a]
 //@   loop 1 invariant counted_def: forall a string :: in(counted, a) <==> (exists j int :: 0 <= j && j < $i && qcsAddr(signs[j]) == a && member(a, justifyValidators) && voteSigValid(cc, signs[j], id))
+
+// ======================= C15: pending-proposal tree =======================
+//@ macro idOf(n) = n.In.GetProposalId()
+//@ macro parentIdOf(n) = n.In.GetParentProposalId()
+//@ macro viewOf(n) = n.In.GetProposalView()
+// inSub(a, b): b is a node of the subtree hanging from a (reachable through Sons).
+// Uninterpreted over the Sons heap, with the two closure rules of reachability as
+// axioms: everything derived from them holds for real (least-fixed-point) reachability.
+//@ spec func inSub(a *ProposalNode, b *ProposalNode) bool ~ len(a.Sons) + (a.Sons[0] == b ? 1 : 0)
+//@ axiom subRefl: forall n *ProposalNode :: inSub(n, n)
+//@ axiom subStep: forall n *ProposalNode, i int, x *ProposalNode :: n != nil && 0 <= i && i < len(n.Sons) && inSub(n.Sons[i], x) ==> inSub(n, x)
+
+// The search returns a node of the subtree carrying the wanted id, and never
+// anything for an empty id.
+//@ func DFSQuery
+//@   property C15
+//@   uses subRefl
+//@   uses subStep
+//@   ensures found_has_id_and_is_below: result != nil ==> node != nil && target != nil && bytesEq(idOf(result), target) && inSub(node, result)
+//@   ensures no_id_no_node: target == nil || node == nil ==> result == nil
+
+// qFound / qTarget: result and argument of the latest DFSQueryNode call.
+//@ ghost var qFound Int
+//@ ghost var qTarget Bytes
+//@ func QCPendingTree.DFSQueryNode
+//@   property C15
+//@   modifies ghost qFound
+//@   modifies ghost qTarget
+//@   sets qFound = result
+//@   sets qTarget = id
+//@   ensures found_has_id_and_is_in_tree: result != nil ==> t.Root != nil && id != nil && bytesEq(idOf(result), id) && inSub(t.Root, result)
+//@   ensures no_id_no_node: id == nil || t.Root == nil ==> result == nil
+
+// The generic / locked / commit markers, where two neighbouring ones are set, are
+// parent and child; when they are re-derived no marker is set above an unset one.
+//@ macro chained(t) = (t.GenericQC != nil ==> bytesEq(parentIdOf(t.HighQC), idOf(t.GenericQC))) && (t.GenericQC != nil && t.LockedQC != nil ==> bytesEq(parentIdOf(t.GenericQC), idOf(t.LockedQC))) && (t.LockedQC != nil && t.CommitQC != nil ==> bytesEq(parentIdOf(t.LockedQC), idOf(t.CommitQC)))
+//@ macro contiguous(t) = (t.LockedQC != nil ==> t.GenericQC != nil) && (t.CommitQC != nil ==> t.LockedQC != nil)
+//@ macro markersKept(t) = t.HighQC == old(t.HighQC) && t.GenericQC == old(t.GenericQC) && t.LockedQC == old(t.LockedQC) && t.CommitQC == old(t.CommitQC)
+//@ func QCPendingTree.updateHighQC
+//@   property C15
+//@   requires certified_marker_set: t.HighQC != nil
+//@   requires markers_chained: chained(t)
+//@   ensures view_never_decreases: viewOf(t.HighQC) >= old(viewOf(t.HighQC))
+//@   ensures markers_chained: chained(t)
+//@   ensures unchanged_or_rederived: markersKept(t) || (contiguous(t) && t.HighQC != nil && bytesEq(idOf(t.HighQC), inProposalId) && inSub(t.Root, t.HighQC))
+//@   ensures markers_in_tree: !markersKept(t) ==> (t.GenericQC != nil ==> inSub(t.Root, t.GenericQC)) && (t.LockedQC != nil ==> inSub(t.Root, t.LockedQC)) && (t.CommitQC != nil ==> inSub(t.Root, t.CommitQC))
+//@   ensures tree_untouched: t.Root == old(t.Root) && t.Genesis == old(t.Genesis)
+
+// The explicit rollback is the only operation that may lower the certified view.
+//@ func QCPendingTree.enforceUpdateHighQC
+//@   property C15
+//@   ensures unknown_id_changes_nothing: result != nil ==> result == NoValidQC && markersKept(t)
+//@   ensures rederived: result == nil ==> t.HighQC != nil && bytesEq(idOf(t.HighQC), inProposalId) && inSub(t.Root, t.HighQC) && chained(t) && contiguous(t)
+//@   ensures tree_untouched: t.Root == old(t.Root) && t.Genesis == old(t.Genesis)
+
+// The committed root only moves to a node found below the previous root: the third
+// ancestor of the certified node; only the Sons of the node above it are cut.
+//@ func QCPendingTree.updateCommit
+//@   property C15
+//@   uses subRefl
+//@   uses subStep
+//@   let r0 = t.Root
+//@   at fieldwrite.Root assert third_ancestor_of_certified: $0 == t && bytesEq(idOf(node), id) && bytesEq(idOf(parent), parentIdOf(node)) && bytesEq(idOf(parentParent), parentIdOf(parent)) && bytesEq(idOf(parentParentParent), parentIdOf(parentParent)) && $1 == parentParentParent
+//@   at fieldwrite.Sons assert only_the_old_parent_of_the_new_root_is_cut: bytesEq(idOf($0), parentIdOf(parentParentParent)) && len($1) == 0
+//@   ensures root_moves_down: t.Root == r0 || (forall x *ProposalNode :: x == t.Root ==> old(inSub(t.Root, x)))
+//@   ensures markers_untouched: markersKept(t)
+
+// A proposal whose id is already in the tree is ignored; a new one is inserted once.
+//@ func QCPendingTree.updateQcStatus
+//@   property C15
+//@   requires node_given: node != nil && t.OrphanList != nil && t.Root != nil
+//@   requires certified_marker_set: t.HighQC != nil
+//@   requires markers_chained: chained(t)
+//@   at QCPendingTree.insert assert only_ids_not_in_tree_are_inserted: qFound == 0 && bytesEq(qTarget, idOf(node)) && $0 == node
+//@   ensures markers_chained: chained(t)
+//@   ensures view_never_decreases: viewOf(t.HighQC) >= old(viewOf(t.HighQC))
+
+// Adoption hangs orphans only under the new node, and only its own children.
+//@ func QCPendingTree.adoptOrphans
+//@   property C15
+//@   requires node_given: node != nil && t.OrphanList != nil
+//@   at fieldwrite.Sons assert adopts_only_its_own_children: $0 == node && bytesEq(parentIdOf(n), idOf(node))
+//@   ensures only_the_new_node_gains_sons: (forall p *ProposalNode :: p != node ==> p.Sons == old(p.Sons)) && slicesFrame(*ProposalNode)
+//@   ensures markers_untouched: markersKept(t) && t.Root == old(t.Root)
+//@   loop 1 invariant frame: (forall p *ProposalNode :: p != node ==> p.Sons == old(p.Sons)) && slicesFrame(*ProposalNode) && markersKept(t) && t.Root == old(t.Root) && t.OrphanList == old(t.OrphanList)
+
+//@ func QCPendingTree.insert
+//@   property C15
+//@   requires node_given: node != nil && t.OrphanList != nil && t.Root != nil
+//@   ensures no_parent_id_rejected: parentIdOf(node) == nil ==> result == NoValidParentId && mapsFrame(string, bool, 0)
+//@   ensures stored_once_under_its_parent: result == nil ==> (forall p *ProposalNode :: p == qFound && p != nil && p != node ==> len(p.Sons) == old(len(p.Sons)) + 1 && p.Sons[len(p.Sons) - 1] == node && bytesEq(idOf(p), parentIdOf(node)))
+//@   at QCPendingTree.insertOrphan assert only_without_parent_in_tree: qFound == 0 && bytesEq(qTarget, parentIdOf(node)) && $0 == node
+//@   ensures markers_untouched: markersKept(t) && t.Root == old(t.Root)
+
+// An orphan is recorded under its id on every path, and an id already recorded is
+// not stored a second time.
+//@ func QCPendingTree.insertOrphan
+//@   property C15
+//@   requires node_given: node != nil && t.OrphanList != nil && t.Root != nil
+//@   let key = utils.F(idOf(node))
+//@   ensures recorded: result == nil ==> in(t.OrphanMap, key)
+//@   at List.PushBack assert duplicate_not_stored_again: !old(in(t.OrphanMap, key))
+//@   at fieldwrite.Sons assert duplicate_not_hung_again: !old(in(t.OrphanMap, key))
+//@   ensures markers_untouched: markersKept(t) && t.Root == old(t.Root)
+
+// The pacemaker's view is max-monotone.
+//@ func DefaultPaceMaker.AdvanceView
+//@   property C15
+//@   ensures max_monotone: p.CurrentView == max(old(p.CurrentView), qc.GetProposalView() + 1) && result0 && result1 == nil
